@@ -7,6 +7,7 @@ package virtual
 // a dead file fail cleanly.
 
 import (
+	"syscall"
 	"context"
 
 	"github.com/buildbarn/bb-remote-execution/pkg/filesystem/pool"
@@ -22,6 +23,8 @@ type verifC16_poolFile struct {
 	truncates int
 	writes    int
 	content   int // ghost content version
+	shortWrite int // >0: the next WriteAt stores only this many bytes and then fails
+	failTruncate bool
 }
 
 func (f *verifC16_poolFile) Close() error { f.closed++; return nil }
@@ -34,6 +37,12 @@ func (f *verifC16_poolFile) Truncate(size int64) error {
 func (f *verifC16_poolFile) WriteAt(p []byte, off int64) (int, error) {
 	rt.Assert(f.closed == 0, "released storage is never touched")
 	f.writes++
+	if f.shortWrite > 0 {
+		n := f.shortWrite
+		f.shortWrite = 0
+		f.content++
+		return n, syscall.ENOSPC
+	}
 	f.content++
 	return len(p), nil
 }
@@ -99,7 +108,7 @@ func verifC16_check(f *fileBackedFile, pf *verifC16_poolFile, g verifC16_ghost, 
 }
 
 func verifHarness_C16_ReferenceCounting() {
-	rt.MustCover("rc:link", "rc:unlink-last", "rc:unlink", "rc:open", "rc:close-last", "rc:close", "rc:frozen-open", "rc:frozen-close-last", "rc:write", "rc:truncate", "rc:dead-link", "rc:dead-open", "rc:dead-write", "rc:dead-truncate", "rc:dead-allocate", "rc:dead-read", "rc:dead-seek")
+	rt.MustCover("rc:link", "rc:unlink-last", "rc:unlink", "rc:open", "rc:close-last", "rc:close", "rc:frozen-open", "rc:frozen-close-last", "rc:write", "rc:short-write", "rc:truncate", "rc:dead-link", "rc:dead-open", "rc:dead-write", "rc:dead-truncate", "rc:dead-allocate", "rc:dead-read", "rc:dead-seek")
 	ctx := context.Background()
 	f, pf, g := verifC16_arbitrary()
 	masks := []ShareMask{ShareMaskRead, ShareMaskWrite, ShareMaskRead | ShareMaskWrite}
@@ -178,8 +187,18 @@ func verifHarness_C16_ReferenceCounting() {
 		rt.Assume(g.frozen == 0)
 		if rt.NondetBool("write (else truncate through SetAttributes)") {
 			rt.Cover("rc:write")
-			n, s := f.VirtualWrite(ctx, []byte{1, 2}, rt.NondetU64("offset")&0xffff)
-			rt.Assert(s == StatusOK && n == 2, "writing a live file succeeds")
+			off := rt.NondetU64("offset") & 0xffff
+			if rt.NondetBool("the pool stores only part of the write and fails") {
+				rt.Cover("rc:short-write")
+				pf.shortWrite = 1
+				sizeBefore := f.size
+				_, s := f.VirtualWrite(ctx, []byte{1, 2}, off)
+				rt.Assert(s != StatusOK, "a write the pool could not complete is reported")
+				rt.Assert(f.size >= sizeBefore && rt.Implies(off+1 > sizeBefore, f.size >= off+1), "bytes that were stored count towards the file size")
+			} else {
+				n, s := f.VirtualWrite(ctx, []byte{1, 2}, off)
+				rt.Assert(s == StatusOK && n == 2, "writing a live file succeeds")
+			}
 		} else {
 			rt.Cover("rc:truncate")
 			var out Attributes
